@@ -197,9 +197,9 @@ Proof.
   - unfold kind_agrees in Hk. destruct (deps_kind (no_deps_value o) s) as [[n|] b|t|].
     + destruct Hk as [Hf _]. unfold find_deps_generic_bounds in Hf.
       destruct (find_type_param n (p_items (g_params (s_gen s))) 0) as [[idx p]|] eqn:F; [|discriminate].
-      destruct (fold_left (deps_where_step n) (where_items (s_gen s)) (gp_bounds p, push_others (p_items (g_params (s_gen s))) 0 idx tg)) as [bounds tg2] eqn:E.
+      destruct (fold_left (deps_where_step n) (where_items (s_gen s)) (trait_bounds (gp_bounds p), push_others (p_items (g_params (s_gen s))) 0 idx tg)) as [bounds tg2] eqn:E.
       injection Hf as _ <-.
-      pose proof (deps_where_step_params n (where_items (s_gen s)) (gp_bounds p) (push_others (p_items (g_params (s_gen s))) 0 idx tg)) as Hp.
+      pose proof (deps_where_step_params n (where_items (s_gen s)) (trait_bounds (gp_bounds p)) (push_others (p_items (g_params (s_gen s))) 0 idx tg)) as Hp.
       rewrite E in Hp. cbn [snd] in Hp. rewrite Hp. apply (push_others_found n _ _ _ _ _ F).
     + destruct Hk as [_ ->]. apply deps_with_generics_params'.
     + destruct Hk as (_ & _ & ->). apply deps_with_generics_params'.
